@@ -678,7 +678,7 @@ func c13Generate(o *out, r *rng, thorough bool) {
 		})
 	}
 	// the full 0.01 grid
-	for i := 0; i < 2*mul; i++ {
+	for i := 0; i < 4*mul; i++ {
 		c := c13Cfg(r)
 		c.s = 1
 		vs := c13Values(r, c, 1+r.intn(200))
@@ -728,18 +728,21 @@ func c13Generate(o *out, r *rng, thorough bool) {
 		c13ObserveM(o, "M", []c13Op{b, a})
 	}
 	// different geometries (dropped > 0 when the target range is smaller), both orders
-	for i := 0; i < 120*mul; i++ {
+	for i := 0; i < 200*mul; i++ {
 		ca, cb := c13Cfg(r), c13Cfg(r)
-		switch r.intn(4) {
-		case 0: // same but smaller range
+		switch r.intn(6) {
+		case 0, 1, 2: // same but smaller range
 			cb = hcfg{ca.lo, ca.hi>>uint(1+r.intn(6)) + 1, ca.s}
-		case 1: // same range, other precision
+		case 3: // same range, other precision
 			cb = hcfg{ca.lo, ca.hi, 3 - ca.s}
-		case 2: // same range, other unit
+		case 4: // same range, other unit
 			cb = hcfg{c13Los[r.intn(len(c13Los))], ca.hi, ca.s}
 		}
 		a := c13Op{ca, c13Values(r, ca, r.intn(60))}
 		b := c13Op{cb, c13Values(r, cb, r.intn(60))}
+		for j := 0; j < len(a.vs) && j < 1+r.intn(3); j++ { // some values in the upper half of the larger range
+			a.vs[r.intn(len(a.vs))] = ca.hi - r.i64n(ca.hi/2+1)
+		}
 		c13ObserveM(o, "M", []c13Op{a, b})
 		c13ObserveM(o, "M", []c13Op{b, a})
 	}
